@@ -81,6 +81,12 @@ def check_C13(chk, tier, seed):
         if tls == 1 and srv == "tls" and addr == "host":
             cases.append(f"TLS {tls} {verify} {srv} {cert} {addr} MARKD{i:04d}q{seed % 1000} dribble")
             meta.append((tls, verify, srv, cert, addr))
+    # ... and while that slowed-down connection setup is in flight, two other peers connect to the server: one peer's connection
+    # setup is no business of another's
+    for i, (tls, verify, srv, cert, addr) in enumerate(cells):
+        if tls == 1 and srv == "tls" and addr == "host":
+            cases.append(f"TLS {tls} {verify} {srv} {cert} {addr} MARKV{i:04d}q{seed % 1000} dribble rival")
+            meta.append((tls, verify, srv, cert, addr))
     # the port IANA lists for Diameter over TLS (5658): the configuration decides, not the port.  (3868 is left alone: the
     # repository's own transport test binds it, and a check must not be able to disturb a test run going on next to it.)
     for port in (5658,):
@@ -173,6 +179,17 @@ def check_C13(chk, tier, seed):
         if not (got == "refused" or (want == "tls" and got == "tls")):
             chk.violation(f"after its first connection attempt was cut off, the client went on against the settings: expected refused{' or tls' if want == 'tls' else ''}, observed {got}",
                           dict(case=c, impl=short(im), expected=want))
+    # one client object, the server behind its address replaced between connect() calls: a rotation to another trusted, matching
+    # certificate is accepted, a certificate for another name is refused (verification on) or accepted (off), the first one again is accepted
+    swap = core.run_sharded([eng.harness, "codec"], eng.prelude, ["TLSSWAP 1", "TLSSWAP 0"], shards=2, timeout=300, env=NET_ENV)
+    for c, im in zip(["TLSSWAP 1", "TLSSWAP 0"], swap):
+        chk.case(c, True)
+        chk.validated += 1
+        chk.count("server-replaced-between-connects")
+        want = "TLSSWAP c1=ok c2=ok c3=refused c4=ok" if c.endswith("1") else "TLSSWAP c1=ok c2=ok c3=ok c4=ok"
+        if im != want:
+            chk.violation("one client object whose server was replaced between connect() calls (match, another trusted matching certificate, a certificate for another "
+                          "name, match again): expected " + want[8:] + ", observed " + short(im, 200), dict(case=c, impl=short(im), expected=want))
     # an endpoint that chooses its certificate by the name the client asks for (SNI; `openssl s_server` with a default certificate
     # for another name): the client was told "localhost", the endpoint has a trusted certificate for it - accepted, verification on or off
     sni = core.run_sharded([eng.harness, "codec"], eng.prelude, ["TLSSNI 1", "TLSSNI 0"], shards=2, timeout=300, env=NET_ENV)
